@@ -775,7 +775,9 @@ def seqStep? (tok : String) : Option TT.Step :=
     tgt?.bind fun tgt =>
       if r == "o" then some { tgt := tgt, ok := true, code := 0, dets := [] }
       else match r.toList with
-        | 'e' :: rest =>
+        -- 'E' = the target ended the call before the request was written (Send ⇒ io.EOF): same expected response
+        | c :: rest =>
+          if !(c == 'e' || c == 'E') then none else
           let ds := rest.takeWhile Char.isDigit
           let tl := rest.dropWhile Char.isDigit
           match (String.ofList ds).toNat?, tl.mapM (fun c => if c == 'a' then some (some TT.Det.a) else if c == 'b' then some (some TT.Det.b) else if c == '-' then some none else none) with
@@ -809,7 +811,8 @@ def handleSeq (i o : List String) : String :=
                 | .status _ _ => if (g.splitOn "/plain/").length == 2 then "error-body-not-a-decodable-Status-although-the-routed-target-knows-every-detail" else "wrong-response"
                 | .msg => "success-not-rendered"
                 | .fallback _ => "wrong-response"
-              some s!"{why} call={k + 1} (rendering depends on earlier calls / another target) want={seqWant s w} got={g}"
+              let hint := if why.startsWith "error-body" then " (rendering depends on earlier calls / another target)" else ""
+              some s!"{why} call={k + 1}{hint} want={seqWant s w} got={g}"
           | _, _, _ => none
         match go 0 steps spec o with
         | some why => s!"VIOL seq {why}"
